@@ -265,8 +265,8 @@ func (f *File) SetDeadline(t time.Time) error          { return f.f.SetDeadline(
 
 func (f *File) Write(b []byte) (int, error) {
 	simrt.Point("os")
+	var off int64
 	if len(b) > 0 {
-		var off int64
 		if f.app {
 			if st, err := f.f.Stat(); err == nil {
 				off = st.Size()
@@ -274,19 +274,23 @@ func (f *File) Write(b []byte) (int, error) {
 		} else {
 			off, _ = f.f.Seek(0, io.SeekCurrent)
 		}
-		logEffect(KWrite, f.name, "", off, b)
 	}
-	return f.f.Write(b)
+	n, err := f.f.Write(b)
+	if n > 0 {
+		logEffect(KWrite, f.name, "", off, b[:n]) // only what the kernel took
+	}
+	return n, err
 }
 
 func (f *File) WriteString(s string) (int, error) { return f.Write([]byte(s)) }
 
 func (f *File) WriteAt(b []byte, off int64) (int, error) {
 	simrt.Point("os")
-	if len(b) > 0 {
-		logEffect(KWrite, f.name, "", off, b)
+	n, err := f.f.WriteAt(b, off)
+	if n > 0 {
+		logEffect(KWrite, f.name, "", off, b[:n])
 	}
-	return f.f.WriteAt(b, off)
+	return n, err
 }
 
 func (f *File) Truncate(size int64) error {
@@ -437,6 +441,9 @@ func Apply(dir string, e *Effect, torn int) error {
 	case KWrite:
 		f, err := os.OpenFile(p, os.O_RDWR, 0666)
 		if err != nil {
+			if os.IsNotExist(err) {
+				return nil // the live write went to an open file that had been unlinked meanwhile: no visible effect
+			}
 			return err
 		}
 		d := e.Data
